@@ -195,5 +195,5 @@ ExtAdditive(S) == \A o1 \in S, o2 \in S : Required(Concat(o1, o2)) = RAdd(Requir
 \* ---- behaviours for replay: printed once per complete behaviour
 Done == Len(h) = MaxOps + 1 \/ obj.kind = "raised"
 EmitBehaviours == Done => PrintT(<<"BEH", h>>)
-View == <<obj, T, res, Len(h), h[Len(h)].op>>
+View == <<obj, T, res, h[Len(h)].op>>
 =============================================================================
